@@ -29,7 +29,7 @@ pub fn run_sat(case: &Value, _seed: u64) -> Outcome {
         let ver_inst = |rank: u64| -> String { if chain_id == 2 { format!("0:{}", ver0(rank)) } else { ver0(rank) } };
         // text of the field
         let text = case["f"].as_array().unwrap().iter().map(|e| e.as_array().unwrap().iter().map(|a| {
-            let n = names[a["pkg"].as_str().unwrap()];
+            let n = if a["q"].as_u64() == Some(1) { format!("{}:any", names[a["pkg"].as_str().unwrap()]) } else { names[a["pkg"].as_str().unwrap()].to_string() };
             let op = a["op"].as_u64().unwrap() as usize;
             if op == 0 { n.to_string() } else { format!("{} ({} {})", n, OPS[op], ver(a["req"].as_u64().unwrap())) }
         }).collect::<Vec<_>>().join(" | ")).collect::<Vec<_>>().join(", ");
